@@ -17,10 +17,17 @@ CUSTOM_SPECS = [
     },
     {
         'top_role': ':ROOT',
-        'roles': {':R[a-c]': {}, ':x-of': {}, ':rel': {}, ':val': {}, ':r\u00f4le': {}, ':u|:v': {}},      # a role that is not ASCII
+        'roles': {':R[a-c]': {}, ':x-of': {}, ':rel': {}, ':val': {}, ':r\u00f4le': {}, ':u|:v': {}, '(:w|:ww)-of': {}},      # a role that is not ASCII
         'normalizations': {':relation': ':rel'},
         'reifications': [[':rel', 'relate-01', ':ARG0', ':ARG1'],
                          [':val', 'value-01', ':ARG1', ':ARG2']],
+    },
+    {
+        # patterns that can match a name ending in "-of" without any key that literally ends in "-of": whether a role
+        # is inverted is decided by the patterns, not by the spelling of the keys
+        'roles': {':prep-[a-z]+(-[a-z]+)?': {}, ':ARG[0-9]': {}, ':w(-of|of)': {}, ':name': {}, ':quant': {}},
+        'normalizations': {},
+        'reifications': [[':quant', 'have-quant-91', ':ARG1', ':ARG2']],
     },
 ]
 
@@ -94,7 +101,7 @@ def inventory(spec):
                 # numeric suffixes written with leading zeros: :op010 is ten, :op01 and :op1 tie
                 ':op01', ':op010', ':op20',
                 # suffixes beyond ten digits, and roles that spell "-of" before their number (not inverted)
-                ':op9999999999', ':op10000000000', ':x-of2', ':part-of10']
+                ':op9999999999', ':op10000000000', ':x-of2', ':part-of10', ':km\u00b2', ':co\u2082']
         attr = [':polarity', ':quant', ':value', ':name', ':op1', ':op2', ':mode', ':wiki', ':li', ':y1z12', ':y1z3',
                 ':li07', ':li7', ':li010']
         return edge, attr
@@ -106,11 +113,18 @@ def inventory(spec):
                 ':day', ':month', ':year', ':mod', ':polite', ':domain']
         return edge, attr
     s = spec['spec']
+    if ':prep-[a-z]+(-[a-z]+)?' in s['roles']:
+        # only roles whose "-of" form is not itself covered by a pattern (inversion must stay unambiguous)
+        edge = [':ARG0', ':ARG1', ':prep-out-of', ':prep-in-to', ':prep-because-of', ':wof', ':w-of']
+        attr = [':name', ':quant', ':prep-as-if']
+        return edge, attr
     if ':mod' in s['roles']:
         edge = [':ARG0', ':ARG1', ':ARG2', ':mod', ':domain', ':op1', ':op2', ':part-of', ':loc', ':snt2', ':q7']
         attr = [':name', ':quant', ':polarity', ':op1', ':mod']
+        if s.get('concept_role'):
+            attr = attr + [s['concept_role'], s['concept_role']]      # e.g. (a / alpha :isa kind): an attribute
     else:
-        edge = [':Ra', ':Rb', ':Rc', ':x-of', ':rel', ':r\u00f4le', ':u', ':v']
+        edge = [':Ra', ':Rb', ':Rc', ':x-of', ':rel', ':r\u00f4le', ':u', ':v', ':w-of', ':ww-of']
         attr = [':val', ':Ra', ':Rc']
     return edge, attr
 
@@ -132,6 +146,8 @@ def invalid_roles(spec):
                 # digits that are not 0-9 are not role indices
                 ':op\uff13', ':ARG\u0967', ':op1\u0662', ':snt\u0663-of']
     s = spec['spec']
+    if ':prep-[a-z]+(-[a-z]+)?' in s['roles']:
+        return [':foo', ':ARG', ':prep-', ':prep-On', ':x-of', ':ARG0-of-of', ':vof']
     if ':mod' in s['roles']:
         return [':foo', ':ARG', ':part', ':location', ':bar-of', ':ARG0-of-of']
     return [':foo', ':Rd', ':x', ':R', ':Ra-of-of', ':TOP', ':ux', ':u-extra', ':uv']      # :TOP is not defined here (top role is :ROOT)
